@@ -579,3 +579,72 @@ func FillZeros(s *schema.Schema, t schema.Type, v *V) {
 		}
 	}
 }
+
+// IsValid reports whether v is a valid value of type t: enum symbols are symbols of the enum, unions have exactly
+// one member of the union set, fixed values have the declared size, required fields are present ("" = valid,
+// otherwise the first reason). Values produced by a lenient decoder (unknown enum symbol -> the "unknown"
+// constant) are not valid and cannot be encoded.
+func IsValid(s *schema.Schema, t schema.Type, v *V) string {
+	if v == nil {
+		return "nil value"
+	}
+	switch {
+	case t.Prim != "":
+		return ""
+	case t.Array != nil:
+		for i, x := range v.Arr {
+			if r := IsValid(s, *t.Array, x); r != "" {
+				return fmt.Sprintf("[%d]: %s", i, r)
+			}
+		}
+		return ""
+	case t.Map != nil:
+		for k, x := range v.Ent {
+			if r := IsValid(s, *t.Map, x); r != "" {
+				return fmt.Sprintf("[%s]: %s", k, r)
+			}
+		}
+		return ""
+	}
+	n := s.Lookup(*t.Ref)
+	switch n.Kind {
+	case "record", "complexkey":
+		for _, f := range s.AllFields(n) {
+			x, ok := v.Flds[f.Name]
+			if !ok {
+				if f.Required() && f.Default == nil {
+					return "required field " + f.Name + " is missing"
+				}
+				continue
+			}
+			if r := IsValid(s, f.Type, x); r != "" {
+				return "." + f.Name + ": " + r
+			}
+		}
+	case "enum":
+		for _, sym := range n.Symbols {
+			if sym == v.S {
+				return ""
+			}
+		}
+		return "unknown enum symbol " + strconv.Quote(v.S)
+	case "fixed":
+		if len(v.Bytes()) != n.Size {
+			return "fixed of wrong size"
+		}
+	case "union":
+		if v.Val == nil {
+			if n.HasNull && v.Mem == "" {
+				return ""
+			}
+			return "union without member"
+		}
+		for _, m := range n.Members {
+			if m.Alias == v.Mem {
+				return IsValid(s, m.Type, v.Val)
+			}
+		}
+		return "unknown union member " + v.Mem
+	}
+	return ""
+}
